@@ -45,6 +45,16 @@ CHECKS = {
                      "per path cell z3 decides ranges, common-point identities, completeness w.r.t. the proper-crossing predicate of every edge pair, the (None, None) "
                      "encoding, swap symmetry and exact flag filtering.",
                 technique="symbolic execution of the real code (SYMX) + z3 per path cell (polynomial identities, orientation predicates)"),
+    "C18": dict(level="model_checking", design="4/C18",
+                text="PlanarCurve evaluation, all derivatives and split executed under SYMX with every control point, the parameter and the split nodes symbolic "
+                     "(degrees 1..6): z3 proves the executed arithmetic (raw expression DAG) equal to independent Bernstein/blossom terms for all inputs; box() "
+                     "containment for t in [0,1]; point-on-segment for straight segments with a symbolic point; wrap logic of the winding contribution.",
+                technique="symbolic execution of the real code (SYMX, raw expression DAG) + z3 non-linear real arithmetic identities"),
+    "C04": dict(level="model_checking", design="4/C04",
+                text="IntegrateShape.polynomial/area/float executed under SYMX on polygons with all vertices symbolic: z3 proves the executed quadrature arithmetic equal "
+                     "to the exact term-wise integral for all vertex positions and exponents up to the stated order; sign convention of complements; composite shapes "
+                     "translated symbolically; exact area of closed chains with quadratic/cubic pieces and symbolic control points.",
+                technique="symbolic execution of the real code (SYMX, raw expression DAG) + z3 polynomial identities"),
 }
 NA = {}
 
